@@ -5,6 +5,17 @@ package main
 // times in this process and once in a fresh process); the printed programs, function order,
 // constants, types, globals and byte code must be identical.  `compileCdc` is also used by the
 // `instr` stream (instruction sequences of compiled programs).
+//
+// Multi-program scenarios (`compiledet multi <name> <src> <name> <src> ...`, see genCdcMulti): several
+// programs at address 0x1 in dependency order — leaf contracts with enums / functions, interface
+// programs importing several of them (separate import statements) whose functions carry pre / post
+// conditions that use the imported contracts, and a last program (the target) with concrete types that
+// inherit those conditions.  The whole set is compiled (import handler, elaboration resolver and
+// location handler backed by the programs compiled so far, as in bbq/test_utils), then the target is
+// recompiled 40 times against the same compiled dependencies (Go visits a two-entry map in the other
+// order only once in eight ranges: 40 repetitions catch a two-import order flip with probability 0.995) and the whole set 3 more times from
+// scratch, plus once in a fresh process; printed program (resolved and unresolved operands), imports,
+// globals, constants, types, functions and byte code must be identical every time.
 
 import (
 	"bufio"
@@ -18,6 +29,7 @@ import (
 	"strings"
 	"time"
 
+	"github.com/onflow/cadence/ast"
 	"github.com/onflow/cadence/bbq"
 	"github.com/onflow/cadence/bbq/compiler"
 	"github.com/onflow/cadence/common"
@@ -51,12 +63,12 @@ func compileCdc(src string, withDump bool) (prog *bbq.InstructionProgram, dump s
 		}
 	}()
 	location := common.StringLocation("verif")
-	ast, err := parser.ParseProgram(nil, []byte(src), parser.Config{})
+	parsed, err := parser.ParseProgram(nil, []byte(src), parser.Config{})
 	if err != nil {
 		return nil, "", fmt.Errorf("parse: %w", err)
 	}
 	check := func() (*sema.Checker, error) {
-		checker, err := sema.NewChecker(ast, location, nil, &sema.Config{
+		checker, err := sema.NewChecker(parsed, location, nil, &sema.Config{
 			AccessCheckMode:            sema.AccessCheckModeNotSpecifiedUnrestricted,
 			ExtendedElaborationEnabled: true,
 			BaseValueActivationHandler: cdcBaseActivation,
@@ -143,9 +155,258 @@ func compileCdc(src string, withDump bool) (prog *bbq.InstructionProgram, dump s
 }
 
 func genCompileDet(c *hx.Ctx) {
+	// multi-program scenarios first: the directed shape (two enum contracts, an interface program
+	// importing both with a pre-condition using them, an implementation in a fourth program), then
+	// random ones
+	nMulti := 12
+	if c.Thorough() {
+		nMulti = c.N / 4
+	}
+	for i := 0; i < nMulti; i++ {
+		c.Emit(append([]string{"compiledet", "multi"}, genCdcMulti(c.Rng.Fork(), i < 2)...)...)
+	}
 	for i := 0; i < c.N; i++ {
 		c.Emit("compiledet", genCdcProgram(c.Rng.Fork()))
 	}
+}
+
+// ---- multi-program compilation
+
+type cdcCompiled struct {
+	program     *bbq.InstructionProgram
+	elaboration *compiler.DesugaredElaboration
+}
+
+var cdcMultiAddress = common.MustBytesToAddress([]byte{1})
+
+func cdcMultiLocationHandler(identifiers []ast.Identifier, location common.Location) ([]sema.ResolvedLocation, error) {
+	addressLocation, ok := location.(common.AddressLocation)
+	if !ok {
+		return []sema.ResolvedLocation{{Location: location, Identifiers: identifiers}}, nil
+	}
+	var out []sema.ResolvedLocation
+	for _, identifier := range identifiers {
+		out = append(out, sema.ResolvedLocation{
+			Location:    common.AddressLocation{Address: addressLocation.Address, Name: identifier.Identifier},
+			Identifiers: []ast.Identifier{identifier},
+		})
+	}
+	return out, nil
+}
+
+// cdcCompileOne parses, checks and compiles one program of a set against the programs compiled so
+// far and returns its canonical dump.
+func cdcCompileOne(name, src string, programs map[common.Location]*cdcCompiled, register bool, withBytecode bool) (dump string, err error) {
+	defer func() {
+		if r := recover(); r != nil {
+			err = fmt.Errorf("panic: %v", r)
+		}
+	}()
+	location := common.AddressLocation{Address: cdcMultiAddress, Name: name}
+	program, err := parser.ParseProgram(nil, []byte(src), parser.Config{})
+	if err != nil {
+		return "", fmt.Errorf("parse: %w", err)
+	}
+	check := func() (*sema.Checker, error) {
+		checker, err := sema.NewChecker(program, location, nil, &sema.Config{
+			AccessCheckMode:            sema.AccessCheckModeNotSpecifiedUnrestricted,
+			ExtendedElaborationEnabled: true,
+			BaseValueActivationHandler: cdcBaseActivation,
+			LocationHandler:            cdcMultiLocationHandler,
+			ImportHandler: func(_ *sema.Checker, location common.Location, _ ast.Range) (sema.Import, error) {
+				imported, ok := programs[location]
+				if !ok {
+					return nil, fmt.Errorf("cannot find contract in location %s", location)
+				}
+				return sema.ElaborationImport{Elaboration: imported.elaboration.OriginalElaboration()}, nil
+			},
+		})
+		if err != nil {
+			return nil, err
+		}
+		return checker, checker.Check()
+	}
+	config := func(peephole bool) *compiler.Config {
+		return &compiler.Config{
+			LocationHandler: cdcMultiLocationHandler,
+			ImportHandler: func(location common.Location) *bbq.InstructionProgram {
+				imported, ok := programs[location]
+				if !ok {
+					return nil
+				}
+				return imported.program
+			},
+			ElaborationResolver: func(location common.Location) (*compiler.DesugaredElaboration, error) {
+				imported, ok := programs[location]
+				if !ok {
+					return nil, fmt.Errorf("cannot find elaboration for %s", location)
+				}
+				return imported.elaboration, nil
+			},
+			PeepholeOptimizationsEnabled: peephole,
+		}
+	}
+	checker, err := check()
+	if err != nil {
+		return "", fmt.Errorf("check: %w", err)
+	}
+	comp := compiler.NewInstructionCompilerWithConfig(interpreter.ProgramFromChecker(checker), location, config(false))
+	prog := comp.Compile()
+	if register {
+		programs[location] = &cdcCompiled{program: prog, elaboration: comp.DesugaredElaboration}
+	}
+	var sb strings.Builder
+	fmt.Fprintf(&sb, "##### program %s\n", name)
+	sb.WriteString(bbq.NewInstructionsProgramPrinter(false, false, false).PrintProgram(prog))
+	sb.WriteString("\n#resolved\n")
+	sb.WriteString(bbq.NewInstructionsProgramPrinter(true, false, false).PrintProgram(prog))
+	sb.WriteString("\n#imports\n")
+	for i, im := range prog.Imports {
+		loc := "nil"
+		if im.Location != nil {
+			loc = im.Location.ID()
+		}
+		fmt.Fprintf(&sb, "%d %s %s\n", i, loc, im.Name)
+	}
+	sb.WriteString("#functions\n")
+	for i, f := range prog.Functions {
+		fmt.Fprintf(&sb, "%d %s %s params=%d locals=%d code=%d\n", i, f.Name, f.QualifiedName, f.ParameterCount, f.LocalCount, len(f.Code))
+	}
+	sb.WriteString("#constants\n")
+	for i, k := range prog.Constants {
+		fmt.Fprintf(&sb, "%d %s %s\n", i, k.Kind, k.String())
+	}
+	sb.WriteString("#types\n")
+	for i, t := range prog.Types {
+		fmt.Fprintf(&sb, "%d %s\n", i, t.ID())
+	}
+	sb.WriteString("#globals\n")
+	for i, g := range prog.Globals {
+		gi := g.GetGlobalInfo()
+		loc := "nil"
+		if gi.Location != nil {
+			loc = gi.Location.ID()
+		}
+		fmt.Fprintf(&sb, "%d %s %s %s %d %T\n", i, loc, gi.Name, gi.QualifiedName, gi.Index, g)
+	}
+	sb.WriteString("#contracts\n")
+	for i, ct := range prog.Contracts {
+		fmt.Fprintf(&sb, "%d %s\n", i, ct.Name)
+	}
+	// byte code of the same program (fresh checker: the compiler extends the elaboration)
+	for _, peephole := range []bool{false, true} {
+		if !withBytecode {
+			break
+		}
+		func() {
+			fmt.Fprintf(&sb, "#bytecode peephole=%v\n", peephole)
+			defer func() {
+				if r := recover(); r != nil {
+					fmt.Fprintf(&sb, "unavailable: %v\n", r)
+				}
+			}()
+			checker2, err := check()
+			if err != nil {
+				sb.WriteString("unavailable: check failed\n")
+				return
+			}
+			bprog := compiler.NewBytecodeCompiler(interpreter.ProgramFromChecker(checker2), location, config(peephole)).Compile()
+			for i, f := range bprog.Functions {
+				fmt.Fprintf(&sb, "%d %s %s\n", i, f.QualifiedName, hex.EncodeToString(f.Code))
+			}
+			for i, t := range bprog.Types {
+				fmt.Fprintf(&sb, "t%d %s\n", i, hex.EncodeToString(t))
+			}
+			for i, im := range bprog.Imports {
+				fmt.Fprintf(&sb, "i%d %s\n", i, im.Name)
+			}
+			for i, g := range bprog.Globals {
+				gi := g.GetGlobalInfo()
+				fmt.Fprintf(&sb, "g%d %s %d\n", i, gi.QualifiedName, gi.Index)
+			}
+		}()
+	}
+	return sb.String(), nil
+}
+
+// cdcCompileSet compiles all programs (name, source pairs, dependency order) from scratch.
+func cdcCompileSet(pairs []string) (dump string, programs map[common.Location]*cdcCompiled, err error) {
+	programs = map[common.Location]*cdcCompiled{}
+	var sb strings.Builder
+	for i := 0; i+1 < len(pairs); i += 2 {
+		d, err := cdcCompileOne(pairs[i], strings.ReplaceAll(pairs[i+1], "\\n", "\n"), programs, true, true)
+		if err != nil {
+			return "", nil, fmt.Errorf("%s: %w", pairs[i], err)
+		}
+		sb.WriteString(d)
+	}
+	return sb.String(), programs, nil
+}
+
+const cdcMultiTargetReps = 40
+const cdcMultiSetReps = 3
+const cdcMultiBytecodeReps = 6
+const cdcBytecodeMarker = "#bytecode peephole=false\n"
+
+func execCompileDetMulti(op []string) string {
+	pairs := op[2:]
+	if len(pairs) < 2 || len(pairs)%2 != 0 {
+		return "bad-op"
+	}
+	first, programs, err := cdcCompileSet(pairs)
+	if err != nil {
+		msg := err.Error()
+		if os.Getenv("VERIF_DEBUG") != "" {
+			fmt.Fprintln(os.Stderr, "compiledet multi:", msg)
+		}
+		if strings.Contains(msg, "panic") {
+			return "compile-panic"
+		}
+		parts := strings.SplitN(msg, ":", 3)
+		if len(parts) >= 2 {
+			return "rejected:" + strings.TrimSpace(parts[1])
+		}
+		return "rejected:" + msg
+	}
+	h := dumpHash(first)
+	if os.Getenv("VERIF_COMPILEDET_CHILD") != "" {
+		return "hash:" + h
+	}
+	// the target again and again, against the same compiled dependencies
+	targetName, targetSrc := pairs[len(pairs)-2], strings.ReplaceAll(pairs[len(pairs)-1], "\\n", "\n")
+	marker := "##### program " + targetName + "\n"
+	firstTarget := first[strings.LastIndex(first, marker):]
+	// (byte code compilers in the first cdcMultiBytecodeReps repetitions only; afterwards the instruction
+	// program with all its tables)
+	firstInstr := firstTarget
+	if j := strings.Index(firstTarget, cdcBytecodeMarker); j >= 0 {
+		firstInstr = firstTarget[:j]
+	}
+	for i := 0; i < cdcMultiTargetReps; i++ {
+		withBytecode := i < cdcMultiBytecodeReps
+		next, err := cdcCompileOne(targetName, targetSrc, programs, false, withBytecode)
+		if err != nil {
+			return "differ:target repetition " + strconv.Itoa(i) + " failed"
+		}
+		want := firstTarget
+		if !withBytecode {
+			want = firstInstr
+		}
+		if next != want {
+			return "differ:target " + targetName + " repetition " + strconv.Itoa(i) + " " + hx.Clean(firstDiffLine(want, next))
+		}
+	}
+	// the whole set from scratch
+	for i := 0; i < cdcMultiSetReps; i++ {
+		next, _, err := cdcCompileSet(pairs)
+		if err != nil {
+			return "differ:set repetition " + strconv.Itoa(i) + " failed"
+		}
+		if next != first {
+			return "differ:set repetition " + strconv.Itoa(i) + " " + hx.Clean(firstDiffLine(first, next))
+		}
+	}
+	return cdcFreshProcess(op, h)
 }
 
 func dumpHash(d string) string {
@@ -166,6 +427,9 @@ func firstDiffLine(a, b string) string {
 func execCompileDet(op []string) string {
 	if len(op) < 2 || op[0] != "compiledet" {
 		return "not-this-stream"
+	}
+	if op[1] == "multi" {
+		return execCompileDetMulti(op)
 	}
 	src := strings.ReplaceAll(op[1], "\\n", "\n")
 	_, first, err := compileCdc(src, true)
@@ -193,12 +457,21 @@ func execCompileDet(op []string) string {
 			return "differ:in-process repetition " + strconv.Itoa(i) + " " + hx.Clean(firstDiffLine(first, next))
 		}
 	}
+	return cdcFreshProcess(op, h)
+}
+
+// cdcFreshProcess replays the op in a fresh process and compares the hash of its first dump with h.
+func cdcFreshProcess(op []string, h string) string {
 	// one fresh process
 	if os.Getenv("VERIF_COMPILEDET_NOFORK") == "" {
 		tmp, err := os.CreateTemp("", "compiledet-*.txt")
 		if err == nil {
 			defer os.Remove(tmp.Name())
-			fmt.Fprintf(tmp, "compiledet\t%s\n", hx.Clean(op[1]))
+			cleaned := make([]string, len(op))
+			for i, f := range op {
+				cleaned[i] = hx.Clean(f)
+			}
+			fmt.Fprintf(tmp, "%s\n", strings.Join(cleaned, "\t"))
 			tmp.Close()
 			cmd := exec.Command(os.Args[0], "compiledet", "--replay", tmp.Name(), "--workers", "1")
 			cmd.Env = append(os.Environ(), "VERIF_COMPILEDET_CHILD=1")
